@@ -1483,7 +1483,7 @@ func ruleRoundNearest(r *Run) {
 	sl := newSlicer(p)
 	sl.dataOnly = true
 	n := 0
-	allInstrs(setFn, func(in ssa.Instruction) {
+	forEachInstr(helperGroup(p, setFn), func(in ssa.Instruction) {
 		st, ok := in.(*ssa.Store)
 		if !ok {
 			return
@@ -1871,4 +1871,107 @@ func stripLoadsAddr(v ssa.Value) ssa.Value {
 		return ld.X
 	}
 	return v
+}
+
+// ---------------------------------------------------------------------------
+// helperGroup: an anchor function together with the unexported, non-recursive module functions it
+// statically reaches that are used ONLY from within that group (private helpers extracted by a
+// refactoring).  Rules that scan the body of an anchor scan the group instead, so that moving a
+// block into a helper does not make its stores and calls invisible.
+// ---------------------------------------------------------------------------
+
+func helperGroup(p *Program, anchor *ssa.Function) []*ssa.Function {
+	group := map[*ssa.Function]bool{anchor: true}
+	callers := p.callersIndex()
+	for changed := true; changed; {
+		changed = false
+		for _, g := range sortedFuncs(p.staticReach(anchor)) {
+			if group[g] || g.Parent() != nil && !group[topLevel(g)] {
+				continue
+			}
+			if g.Parent() != nil {
+				group[g] = true
+				changed = true
+				continue
+			}
+			if g.Object() != nil && g.Object().Exported() {
+				continue
+			}
+			// every caller is already in the group
+			all := len(callers[g]) > 0
+			for c := range callers[g] {
+				if !group[topLevel(c)] {
+					all = false
+				}
+			}
+			if all {
+				group[g] = true
+				changed = true
+			}
+		}
+	}
+	return sortedFuncs(group)
+}
+
+func forEachInstr(fns []*ssa.Function, f func(ssa.Instruction)) {
+	for _, fn := range fns {
+		allInstrs(fn, f)
+	}
+}
+
+// callersIndex: static callers of every module function (cached).
+func (p *Program) callersIndex() map[*ssa.Function]map[*ssa.Function]bool {
+	if p.callers != nil {
+		return p.callers
+	}
+	idx := map[*ssa.Function]map[*ssa.Function]bool{}
+	for _, fn := range p.ModFuncs() {
+		allInstrs(fn, func(in ssa.Instruction) {
+			add := func(cal *ssa.Function) {
+				if cal == nil || !p.inModule(cal) {
+					return
+				}
+				if idx[cal] == nil {
+					idx[cal] = map[*ssa.Function]bool{}
+				}
+				idx[cal][fn] = true
+			}
+			if c, ok := in.(ssa.CallInstruction); ok {
+				add(staticCallee(c))
+			}
+			for _, op := range in.Operands(nil) {
+				if f, ok := (*op).(*ssa.Function); ok {
+					add(f)
+				}
+				if mc, ok := (*op).(*ssa.MakeClosure); ok {
+					add(mc.Fn.(*ssa.Function))
+				}
+			}
+		})
+	}
+	p.callers = idx
+	return idx
+}
+
+// withCallerControl: a store found in a helper is also control dependent on the conditions under
+// which the anchor calls that helper.
+func withCallerControl(p *Program, sl *slicer, res *sliceRes, at ssa.Instruction, anchor *ssa.Function) *sliceRes {
+	fn := topLevel(at.Parent())
+	if fn == anchor {
+		return res
+	}
+	for caller := range p.callersIndex()[fn] {
+		allInstrs(caller, func(in ssa.Instruction) {
+			if c, ok := in.(ssa.CallInstruction); ok && staticCallee(c) == fn {
+				for _, cond := range controlConds(c) {
+					sl.walk(cond, res, 0)
+				}
+				// the helper's parameters are the caller's arguments
+				for _, a := range c.Common().Args {
+					sl.walk(a, res, 0)
+				}
+			}
+		})
+	}
+	return res
 }
